@@ -444,6 +444,9 @@ func (env *Env) lookupSource(name string) (Val, bool) {
 				return env.valOfSSA(fv, fvIsAddr(fv)), true
 			}
 		}
+		if p := fr.paramByHeaderName(name); p != nil {
+			return Val{T: fr.val(p), Typ: p.Type()}, true
+		}
 		if env.atBlock == nil {
 			return Val{}, false
 		}
@@ -489,7 +492,38 @@ func (env *Env) lookupSource(name string) (Val, bool) {
 			return env.valOfSSA(fv, fvIsAddr(fv)), true
 		}
 	}
+	if p := fr.paramByHeaderName(name); p != nil {
+		return Val{T: fr.val(p), Typ: p.Type()}, true
+	}
+	// a call-site clause evaluated inside an inlined callee or closure: the header names of the contract under proof
+	if top := fr.vc.top; top != nil && top != fr {
+		if p := top.paramByHeaderName(name); p != nil {
+			return Val{T: top.val(p), Typ: p.Type()}, true
+		}
+	}
 	return Val{}, false
+}
+
+// paramByHeaderName resolves a name of the contract header positionally: a parameter renamed in the code keeps the
+// name the contract gave it (contracts bind parameters by position; renaming one is a harmless edit).
+func (fr *Frame) paramByHeaderName(name string) *ssa.Parameter {
+	c := fr.contract
+	if c == nil || fr.fn == nil {
+		return nil
+	}
+	off := 0
+	if fr.fn.Signature.Recv() != nil {
+		off = 1
+		if c.RecvName == name && len(fr.fn.Params) > 0 {
+			return fr.fn.Params[0]
+		}
+	}
+	for k, pn := range c.Params {
+		if pn == name && off+k < len(fr.fn.Params) {
+			return fr.fn.Params[off+k]
+		}
+	}
+	return nil
 }
 
 // fvIsAddr reports whether a free variable holds the address of the captured variable (captured by reference) rather
@@ -1109,6 +1143,10 @@ func (env *Env) evalCall(e *SCall) (Val, error) {
 				return Val{}, err
 			}
 			t := types.Universe.Lookup(id.Name).Type()
+			if v.T.Sort == SFloat {
+				// same uninterpreted conversion as the code's float-to-integer conversion
+				v.T = fr.uf("float.toint", SInt, v.T)
+			}
 			return Val{T: wrap(t, v.T), Typ: t}, nil
 		case "int":
 			v, err := env.eval(e.Args[0])
